@@ -283,6 +283,9 @@ type routeExp struct {
 	chain        []string
 }
 
+// a file that exists, for StaticFile routes
+var staticFilePath = "/verif/properties.jsonl"
+
 func groups(w *mon.W) {
 	w.Cases("groups", uint64(w.Pick(20000, 400000)), func(c *mon.Case) {
 		r := c.R
@@ -369,22 +372,50 @@ func groups(w *mon.W) {
 					engineUses = append(engineUses, nms...)
 				}
 				ops = append(ops, fmt.Sprintf("Use(%s,%v)", G.base, nms))
-			case 2, 3: // route with 1..2 own handlers
+			case 2, 3: // route with 1..2 own handlers, through every registration API
 				p := fmt.Sprintf("%s/r%d", G.base, len(routes))
-				m := r.Str("GET", "POST")
+				rel := strings.TrimPrefix(p, G.base)
+				m := r.Str("GET", "POST", "GET", "POST", "PUT", "DELETE", "PATCH", "HEAD", "OPTIONS")
 				hn := name("h")
 				hs := []app.HandlerFunc{}
 				chain := append([]string{}, G.chain...)
-				if r.Bool() {
+				api := r.Str("Handle", "Handle", "short", "Any", "EX", "AnyEX", "HandleEX", "StaticFile")
+				if r.Bool() && api != "EX" && api != "AnyEX" && api != "HandleEX" && api != "StaticFile" {
 					rm := name("rm")
 					hs = append(hs, mw(rm))
 					chain = append(chain, rm)
 				}
 				hs = append(hs, h(hn))
 				chain = append(chain, hn)
-				G.g.Handle(m, strings.TrimPrefix(p, G.base), hs...)
+				switch api {
+				case "Handle":
+					G.g.Handle(m, rel, hs...)
+				case "short":
+					map[string]func(string, ...app.HandlerFunc) route.IRoutes{"GET": G.g.GET, "POST": G.g.POST, "PUT": G.g.PUT, "DELETE": G.g.DELETE, "PATCH": G.g.PATCH, "HEAD": G.g.HEAD, "OPTIONS": G.g.OPTIONS}[m](rel, hs...)
+				case "Any":
+					G.g.Any(rel, hs...)
+					m = "Any"
+				case "EX":
+					ex := map[string]func(string, app.HandlerFunc, string) route.IRoutes{"GET": G.g.GETEX, "POST": G.g.POSTEX, "PUT": G.g.PUTEX, "DELETE": G.g.DELETEEX, "HEAD": G.g.HEADEX}[m]
+					if ex == nil {
+						m = "GET"
+						ex = G.g.GETEX
+					}
+					ex(rel, hs[0], hn)
+				case "AnyEX":
+					G.g.AnyEX(rel, hs[0], hn)
+					m = "Any"
+				case "HandleEX":
+					G.g.HandleEX(m, rel, hs[0], hn)
+				case "StaticFile":
+					// GET and HEAD of one file; its handler leaves no trace of its own
+					G.g.StaticFile(rel, staticFilePath)
+					m = "GET"
+					chain = chain[:len(chain)-1]
+					chain = append(chain, "")
+				}
 				routes = append(routes, routeExp{m, p, chain})
-				ops = append(ops, fmt.Sprintf("%s(%s)", m, p))
+				ops = append(ops, fmt.Sprintf("%s:%s(%s)", api, m, p))
 			case 4: // child group, with or without handlers of its own
 				if G.depth >= 3 {
 					continue
@@ -436,21 +467,37 @@ func groups(w *mon.W) {
 			}
 			return out
 		}
+		allMethods := []string{"GET", "POST", "PUT", "DELETE", "PATCH", "HEAD", "OPTIONS", "CONNECT", "TRACE"}
 		for _, rt := range routes {
-			got := serve(rt.method, rt.path)
+			method := rt.method
+			if method == "Any" {
+				method = allMethods[r.Intn(len(allMethods))]
+				w.Count("group_probes_of_any_routes", 1)
+			}
+			got := serve(method, rt.path)
 			want := onion(rt.chain)
+			if rt.chain[len(rt.chain)-1] == "" { // static file route
+				want = onionMW(rt.chain[:len(rt.chain)-1], nil)
+				w.Count("group_probes_of_static_file_routes", 1)
+			}
 			if strings.Join(got, " ") != strings.Join(want, " ") {
-				c.Violate("group-chain", "registration %v: %s %s ran %v, want %v", ops, rt.method, rt.path, got, want)
+				c.Violate("group-chain", "registration %v: %s %s ran %v, want %v", ops, method, rt.path, got, want)
 				return
+			}
+			if rt.method == "Any" {
+				continue
 			}
 			// wrong method -> 405 path with the engine-level middleware
 			other := "POST"
 			if rt.method == "POST" {
 				other = "GET"
 			}
+			if rt.chain[len(rt.chain)-1] == "" {
+				other = "POST" // StaticFile registers GET and HEAD
+			}
 			clash := false
 			for _, r2 := range routes {
-				if r2.path == rt.path && r2.method == other {
+				if r2.path == rt.path && (r2.method == other || r2.method == "Any") {
 					clash = true
 				}
 			}
